@@ -267,6 +267,28 @@ def worker(case: Dict[str, Any]) -> CaseResult:
         if "C04" in props:
             violations.extend(check_loads(replay_case, gen, pkg, feats))
             count("c04_load_checks")
+            if case.get("extra_files") and cfg.get("files_to_include") and not case.get("_no_regen"):
+                # a two-step history: the user edits an included file and generates again into the same directory
+                inc = root / cfg["files_to_include"][0]
+                new_src = inc.read_text() + "\n\nclass AddedLater:\n    marker = %d\n" % case["idx"]
+                inc.write_text(new_src)
+                with warnings.catch_warnings():
+                    warnings.simplefilter("ignore")
+                    gen2 = run_cli(root, case.get("strategy", "client"), cfg)
+                count("c04_regenerations")
+                if not gen2.ok:
+                    violations.append(Violation("C04", "regenerates", "second generation into the same directory failed: %s: %s" % (gen2.exc_type, str(gen2.exception)[:300]), feats,
+                                                replay_case, mech="c04:regenerates"))
+                else:
+                    copied = (gen2.package_dir / inc.name).read_text()
+                    if "AddedLater" not in copied or "marker = %d" % case["idx"] not in copied:
+                        violations.append(Violation("C04", "regeneration-writes-reported-files", "after editing %s and generating again, the package still holds the old copy "
+                                                    "although the file is in the reported list %r" % (inc.name, gen2.reported_files[:6]), feats, replay_case,
+                                                    mech="c04:regeneration-stale-copy"))
+                    written = sorted(p_.name for p_ in gen2.package_dir.iterdir() if p_.is_file())
+                    if sorted(gen2.reported_files) != written:
+                        violations.append(Violation("C04", "reported-files", "after regeneration: reported %r, on disk %r" % (sorted(gen2.reported_files), written), feats, replay_case,
+                                                    mech="c04:reported-files"))
         if props & {"C01", "C02", "C05"}:
             server = RefServer(schema_ref)
             tracer = make_tracer() if use_tracer else None
